@@ -192,9 +192,12 @@ chk("C01",
     "validated by Trace_CallProtocol.tla (exactly once, in order); a corrupted token must be rejected. Callback parameters "
     "(35 `impl Fn` signatures over primitive/enum/struct arguments and results): the Rust body invokes the callback per a "
     "script, the C callback logs what it receives and answers from the script (CbInvoke/CbEnter/CbReturn/CbResult), its "
-    "destructor logs CbDrop; run_callback's C type must equal the spec's native signature.",
-    "x86-64 SysV, gcc 12. Pointers are compared between the two sides. &str arguments are valid UTF-8 (caller's obligation). "
-    "Callbacks and traits are covered by the C++ leg (C02) only.",
+    "destructor logs CbDrop; run_callback's C type must equal the spec's native signature. Trait objects (`impl Trait`, 8 signatures "
+    "over three traits of 1-3 methods): {data, vtable {destructor, SIZE, ALIGNMENT, entry points}} built by the C caller, every "
+    "scripted method invocation crosses like a callback (tagged with the method), the data pointer must arrive unchanged, the "
+    "vtable entry types must equal the spec's native signatures, the destructor runs exactly once. The catalogue's enum carries "
+    "#[repr(align(1))]: the macro must force #[repr(C)] regardless.",
+    "x86-64 SysV, gcc 12. Pointers are compared between the two sides. &str arguments are valid UTF-8 (caller's obligation).",
     "TLA+ spec + TLC; spec->impl replay (compiled and executed) and impl->spec trace validation",
     "DESIGN.md §5 C01")
 
